@@ -187,10 +187,14 @@ def match(ctx: Any) -> List[Ob]:
 
         return gc.must_pass_before_exit(gc.entry, hit) is None
 
-    changed = [t for t in cfg.nodes if t.kind == 'test' and isinstance(t.ast, ast.Compare) and len(t.ast.ops) == 1 and isinstance(t.ast.ops[0], (ast.NotEq, ast.Eq)) and any(self_attr(x, me) == 'server_key' for x in (t.ast.left, t.ast.comparators[0])) and any(isinstance(x, ast.Name) for x in (t.ast.left, t.ast.comparators[0]))]
+    reloaders = [n for n in cfg.nodes if any(isinstance(c.func, ast.Attribute) and self_attr(c.func, me) and 'addresses_from_cache' in c.func.attr for c in n.calls())]
+    changed = [t for t in cfg.nodes if t.kind == 'test' and isinstance(t.ast, ast.Compare) and len(t.ast.ops) == 1 and isinstance(t.ast.ops[0], (ast.NotEq, ast.Eq)) and any(isinstance(x, ast.Name) for x in (t.ast.left, t.ast.comparators[0])) and any(self_attr(x, me) for x in (t.ast.left, t.ast.comparators[0])) and reloaders and any(cfg.dominates(t, r_) for r_ in reloaders)]
+    changed = [t for t in changed if all(o is t or cfg.dominates(o, t) for o in changed)]  # the innermost guard of the reload
     if len(changed) != 1:
         raise AnalysisError('anchor vanished: the server-changed test of the SRV arm')
     ct = changed[0]
+    cmp_attr = next(self_attr(x, me) for x in (ct.ast.left, ct.ast.comparators[0]) if self_attr(x, me))
+    obs.append(ob(R, f, ct.ast, 'whether the SRV moved the instance to another host is decided on the lower-cased host key (a re-cased spelling of the same host is not a move)', cmp_attr == 'server_key', f'compares `self.{cmp_attr}` (the name as spelled)'))
     arm = isinstance(ct.ast.ops[0], ast.NotEq)
     for field in ('_ipv4_addresses', '_ipv6_addresses'):
         def hit_f(n: Any, field: str = field) -> bool:
@@ -303,6 +307,9 @@ def bound(ctx: Any) -> List[Ob]:
     now_defs = [n for n in cfg.nodes if n.kind == 'stmt' and isinstance(n.ast, ast.Assign) and norm(n.ast.targets[0]) == roles['now'] and not n.in_loop]
     stale_now = [a for a in aw if any(cfg.can_reach(d, a) for d in now_defs) and any(cfg.path_avoiding(a, lambda n, t=t: n is t, lambda n: n in now_defs) is not None for t in loads)]
     obs.append(ob(R, f, stale_now[0].ast if stale_now else 'now = current_time_millis(); self._load_from_cache(zc, now)', 'the time handed to the cache read (expiry filter) and used for the deadline is read after the last suspension before it', bool(now_defs) and not stale_now))
+    from .c17 import lookup_listener_obligations
+
+    obs.extend(lookup_listener_obligations(ctx, R))
     # timeout test precedes send and wait inside the loop
     loop_t = [n for n in cfg.nodes if n.kind == 'loop_test']
     if len(loop_t) != 1:
